@@ -91,21 +91,21 @@ WALK = {
          dict(MinKids=3, MaxKids=3, MaxAtts=0, LexCap=1, XsiOn=False, RetypeTo={'string'})),
     ],
     'thorough': [
-        ('types2', dict(KidMenu={kd(t, 0, 2) for t in SIMPLE9 + ['sc', 'grp']}, AttrMenu={ad('a', 'int'), ad('c', 'date', 'dflt')}),
-         dict(MinKids=1, MaxKids=2, MaxAtts=1, LexCap=2, XsiOn=False, RetypeTo={'string'})),
+        ('types2', dict(KidMenu={kd(t, 1, 1) for t in SIMPLE9 + ['sc', 'grp']}, AttrMenu={ad('a', 'int')}),
+         dict(MinKids=2, MaxKids=2, MaxAtts=1, LexCap=1, XsiOn=False, RetypeTo={'string'})),
         ('types', dict(KidMenu={kd(t, 0, 2) for t in SIMPLE9 + ['sc', 'grp']}, AttrMenu=set()),
          dict(MinKids=1, MaxKids=1, MaxAtts=0, LexCap=4, XsiOn=False, RetypeTo={'string', 'decimal', 'integer', 'u', 'ilist'})),
         ('flags', dict(KidMenu={kd(t, 1, 2, True, True) for t in SIMPLE9 + ['sc']}
                        | {kd(t, 0, 1, True, False) for t in ['integer', 'decimal', 'int']}, AttrMenu=set()),
          dict(MinKids=1, MaxKids=1, MaxAtts=0, LexCap=4, XsiOn=True, RetypeTo={'decimal', 'string', 'integer', 'u'})),
-        ('attrs', dict(KidMenu={kd('sc', 0, 2, True), kd('grp', 0, 1)},
-                       AttrMenu={ad('a', t, u) for t in ['date', 'int', 'ilist', 'u'] for u in ['opt', 'dflt']}
-                       | {ad('c', t, u) for t in ['boolean', 'small', 'decimal'] for u in ['req', 'dflt']}),
-         dict(MinKids=1, MaxKids=1, MaxAtts=2, LexCap=2, XsiOn=False, RetypeTo={'string', 'decimal'})),
+        ('attrs', dict(KidMenu={kd('sc', 0, 1, True)},
+                       AttrMenu={ad('a', 'date'), ad('a', 'int', 'dflt'), ad('a', 'ilist'), ad('a', 'u', 'dflt'),
+                                 ad('c', 'boolean', 'dflt'), ad('c', 'small', 'req'), ad('c', 'decimal', 'dflt')}),
+         dict(MinKids=1, MaxKids=1, MaxAtts=2, LexCap=1, XsiOn=False, RetypeTo={'string', 'decimal'})),
         ('seq3', dict(KidMenu={kd('int', 1, 1, False, True), kd('int', 0, 1), kd('decimal', 1, 2, True, True),
-                               kd('grp', 1, 1), kd('grp', 0, 1), kd('boolean', 1, 2), kd('sc', 1, 1)},
-                      AttrMenu={ad('c', 'date', 'dflt')}),
-         dict(MinKids=3, MaxKids=3, MaxAtts=1, LexCap=1, XsiOn=False, RetypeTo={'string'})),
+                               kd('grp', 1, 1), kd('boolean', 1, 2)},
+                      AttrMenu=set()),
+         dict(MinKids=3, MaxKids=3, MaxAtts=0, LexCap=1, XsiOn=False, RetypeTo={'string'})),
     ],
 }
 
@@ -115,12 +115,12 @@ SELECT = {
                      AttrMenu={ad('a', 'date'), ad('c', 'boolean', 'dflt')}),
          dict(MinKids=0, MaxKids=2, MaxAtts=2, LexCap=1, XsiOn=False, Axes=set(AXES_Q), Tests=set(TESTS), MaxSteps=2,
               Kinds=XKINDS, RootCfg='R2'),
-         [2, 3, 4, 5]),
+         [2, 3, 4]),
     ],
     'thorough': [
         ('sel', dict(KidMenu={kd('date', 0, 2), kd('sc', 0, 1), kd('grp', 1, 1), kd('string', 1, 1), kd('grp', 0, 2)},
                      AttrMenu={ad('a', 'date'), ad('c', 'boolean', 'dflt'), ad('a', 'int', 'dflt')}),
-         dict(MinKids=0, MaxKids=3, MaxAtts=2, LexCap=2, XsiOn=False, Axes=set(AXES_T), Tests=set(TESTS), MaxSteps=2,
+         dict(MinKids=0, MaxKids=2, MaxAtts=2, LexCap=2, XsiOn=False, Axes=set(AXES_T), Tests=set(TESTS), MaxSteps=2,
               Kinds=XKINDS, RootCfg='R2'),
          [1, 2, 3, 4, 5, 6, 7, 8, 9, 10]),
     ],
